@@ -7,7 +7,9 @@ composed model `hedgerPriceN` / `hedgerLossN` (Model/HedgerPrice.lean, op "hedge
 predicate (real code): criterion(constant sample at cash) == criterion(sample), min <= cash <= max,
 cash <= mean for risk-averse criteria, QCVaR cash = -risk, price = -cash(portfolio - payoff) with the portfolio both from
 Hedger.compute_portfolio and written out (hedge gains minus proportional costs at the instrument's rate; linear and Black-Scholes hedges),
-price(payoff + k) = price(payoff) + k under the same seed, ERM price = loss.
+price(payoff + k) = price(payoff) + k under the same seed, ERM price = loss; a clause REGISTERED AGAIN under an existing name before pricing
+(add_clause(name, c1) ... add_clause(name, c2)): the price follows the clause in force (shift by k_new - k_old, value against the contractual
+payoff written out, sequences of registrations with repeated names sent to op "hedger_price", whose registry replaces in place).
 """
 import math
 from fractions import Fraction as F
@@ -21,6 +23,38 @@ _HP_W = [F(-1), F(-1, 2), F(-1, 4), F(0), F(1, 4), F(1, 2), F(1), F(3, 4)]
 _HP_CLAUSES = [[], [], [["cap", F(1, 64)]], [["cap", F(1, 32)]], [["affine", F(1), F(1, 4)]], [["affine", F(1), F(-1, 2)]],
                [["cap", F(1, 64)], ["affine", F(1), F(1)]], [["affine", F(1), F(1, 4)], ["cap", F(17, 64)]],
                [["affine", F(2), F(1, 8)], ["floor", F(9, 64)]], [["floor", F(1, 128)], ["affine", F(1), F(-1, 4)]]]
+
+
+# clauses RE-REGISTERED under an existing name before pricing (the way a contractual term of an existing derivative object is updated):
+# `add_clause(name, c1)` ... `add_clause(name, c2)`.  The registry is an ordered dict: the later registration replaces the clause and keeps
+# its position; the payoff -- and so the price -- follows the current clause.  A scenario's "adds" is the SEQUENCE of registrations.
+# The first entries are a fixed corpus (every run): a re-registered affine clause always moves the payoff of every path.
+_HP_REG_POOL = [["cap", F(1, 64)], ["cap", F(1, 32)], ["cap", F(17, 64)], ["floor", F(9, 64)], ["floor", F(1, 128)], ["affine", F(1), F(1, 4)],
+                ["affine", F(1), F(-1, 2)], ["affine", F(1), F(1)], ["affine", F(2), F(1, 8)], ["affine", F(1, 2), F(0)]]
+_HP_REREGISTERED = [
+    [["fee", ["affine", F(1), F(1, 4)]], ["fee", ["affine", F(1), F(-1, 2)]]],
+    [["fee", ["affine", F(1), F(0)]], ["fee", ["affine", F(1), F(1)]], ["fee", ["affine", F(1), F(1, 8)]]],
+    [["c0", ["cap", F(1, 64)]], ["c1", ["affine", F(1), F(1)]], ["c0", ["floor", F(9, 64)]]],            # position kept: floor, then + 1
+    [["c0", ["affine", F(2), F(1, 8)]], ["c1", ["cap", F(17, 64)]], ["c0", ["affine", F(1), F(1, 4)]], ["c2", ["affine", F(1), F(-1, 4)]]],
+    [["c0", ["cap", F(1, 32)]], ["c1", ["affine", F(1), F(1, 4)]], ["c1", ["affine", F(1), F(-1, 2)]], ["c0", ["cap", F(1, 64)]]],
+    [["c0", ["affine", F(1), F(1, 2)]], ["c0", ["affine", F(1), F(1, 2)]], ["c0", ["affine", F(1), F(3, 4)]]],
+]
+
+
+def gen_reregistered(g, it):
+    """a sequence of clause registrations in which at least one name is registered again with a different clause"""
+    if it < len(_HP_REREGISTERED):
+        return [[n, list(cl)] for n, cl in _HP_REREGISTERED[it]]
+    n_names = g.choice([1, 1, 2, 3])
+    adds = [[f"c{i}", g.choice(_HP_REG_POOL)] for i in range(n_names)]
+    for _ in range(g.choice([1, 1, 2, 3])):
+        name = f"c{g.randint(0, n_names - 1)}"
+        current = [cl for n, cl in adds if n == name][-1]
+        adds.append([name, g.choice([cl for cl in _HP_REG_POOL if cl != current])])
+        if g.chance(0.3):       # a new name registered between / after the updates
+            adds.append([f"c{n_names}", g.choice(_HP_REG_POOL)])
+            n_names += 1
+    return adds
 
 
 def gen_hedger_price(g, tier):
@@ -42,6 +76,7 @@ def gen_hedger_price(g, tier):
              steps=g.choice([2, 3, 5]), sigma=g.choice([0.2, 0.3, 0.6]), clauses=g.choice(_HP_CLAUSES),
              n_paths=g.choice([1, 2, 3, 5, 8, 20] if tier == "quick" else [1, 2, 3, 5, 8, 20, 50]),
              n_times=g.choice([1, 1, 2, 3]), seed=g.randint(0, 10 ** 6))
+    c["adds"] = [[f"c{i}", cl] for i, cl in enumerate(c["clauses"])]      # the sequence of add_clause(name, clause) calls
     return c
 
 
@@ -56,13 +91,13 @@ def build_hedger_price(torch, nn, c):
         deriv = LookbackOption(stock, strike=c["strike"], maturity=mat)
     else:
         deriv = EuropeanOption(stock, call=(c["deriv"] == "european"), strike=c["strike"], maturity=mat)
-    for i, cl in enumerate(c["clauses"]):
+    for name, cl in c["adds"]:
         if cl[0] == "cap":
-            deriv.add_clause(f"c{i}", lambda d, p, v=float(cl[1]): p.clamp(max=v))
+            deriv.add_clause(name, lambda d, p, v=float(cl[1]): p.clamp(max=v))
         elif cl[0] == "floor":
-            deriv.add_clause(f"c{i}", lambda d, p, v=float(cl[1]): p.clamp(min=v))
+            deriv.add_clause(name, lambda d, p, v=float(cl[1]): p.clamp(min=v))
         else:
-            deriv.add_clause(f"c{i}", lambda d, p, a=float(cl[1]), b=float(cl[2]): a * p + b)
+            deriv.add_clause(name, lambda d, p, a=float(cl[1]), b=float(cl[2]): a * p + b)
     hedge, others = [stock], {}
     for i, h in enumerate(c["hedges"][1:], start=1):
         if h["kind"] == "primary":
@@ -118,7 +153,7 @@ def hedger_price_req(c, k, dt_, und_batches, other_rows):
             paths.append({"market": market, "hedges": hs})
         batches.append(paths)
     payoff = {"kind": "lookback" if c["deriv"] == "lookback" else "european", "call": c["deriv"] != "european_put", "strike": num(c["strike"])}
-    adds = [[f"c{i}", [cl[0]] + nums(cl[1:])] for i, cl in enumerate(c["clauses"])]
+    adds = [[name, [cl[0]] + nums(cl[1:])] for name, cl in c["adds"]]
     return {"op": "hedger_price", "carrier": "rat" if rat else "float",
             "criterion": ["es", k] if rat else [c["which"], num(c["param"])],
             "features": feats, "model": model, "payoff": payoff, "adds": adds, "first": True, "batches": batches}
@@ -129,6 +164,8 @@ def _small_hp(c):
     d["hedges"] = [{k: (rat_str(v) if isinstance(v, F) else v) for k, v in h.items()} for h in c["hedges"]]
     d["w"], d["b"] = enc_rat(c["w"]), enc_rat(c["b"])
     d["clauses"] = [[cl[0]] + enc_rat(cl[1:]) for cl in c["clauses"]]
+    if c.get("reregistered"):
+        d["add_clause_calls"] = [[name, [cl[0]] + enc_rat(cl[1:])] for name, cl in c["adds"]]
     return d
 
 
@@ -140,8 +177,19 @@ def hedger_price_section(ctx, torch, nn):
     g = ctx.gen
     dt = torch.float64
     reqs, metas = [], []
-    for it in range(48 if ctx.tier == "quick" else 480):
+    n_gen = 48 if ctx.tier == "quick" else 480
+    n_rereg = 12 if ctx.tier == "quick" else 80
+    for it in range(n_gen + n_rereg):
         c = gen_hedger_price(g, ctx.tier)
+        if it >= n_gen:         # clauses re-registered under an existing name before pricing
+            c["adds"] = gen_reregistered(g, it - n_gen)
+            c["reregistered"] = True
+            reg = {}
+            for name, cl in c["adds"]:
+                reg[name] = cl
+            c["clauses"] = list(reg.values())       # the clauses in force, in registry order
+            if c["model"] == "badwidth":
+                c["model"], c["w"], c["b"] = "linear", c["w"][:-1], c["b"][:-1]
         small = _small_hp(c)
         try:
             hedger, deriv, hedge, stock, others = build_hedger_price(torch, nn, c)
@@ -165,14 +213,53 @@ def hedger_price_section(ctx, torch, nn):
         st_l, loss, _ = call_impl(hedger.compute_loss, deriv, hedge=hedge, n_paths=N, n_times=nt, enable_grad=False)
         # the same simulations once more, to read the market of every batch
         torch.manual_seed(c["seed"])
-        und_batches = []
+        und_batches, by_hand, by_hand_lib, payoff_bad = [], [], [], None
         for _ in range(nt):
             deriv.simulate(n_paths=N)
             und_batches.append(tensor_to_fracs(stock.spot))
+            if st_p == "ok":
+                # the property on the real code, for every scenario: minus the cash amount of (portfolio - payoff) on these paths, the
+                # hedger being evaluated once more
+                with torch.no_grad():
+                    st_h, pf, _ = call_impl(hedger.compute_portfolio, deriv, hedge)
+                    if st_h == "ok":
+                        by_hand_lib.append(float(-hedger.criterion.cash(pf - deriv.payoff())))
+            if c.get("reregistered") and st_p == "ok":
+                # the contractual payoff written out: payoff_fn() through the clauses IN FORCE (the last registration of every name, at
+                # the position of the name's first registration)
+                with torch.no_grad():
+                    z = deriv.payoff_fn()
+                    for cl in c["clauses"]:
+                        z = z.clamp(max=float(cl[1])) if cl[0] == "cap" else z.clamp(min=float(cl[1])) if cl[0] == "floor" \
+                            else float(cl[1]) * z + float(cl[2])
+                    st_h, pf, _ = call_impl(hedger.compute_portfolio, deriv, hedge)
+                    if st_h == "ok":
+                        by_hand.append(float(-hedger.criterion.cash(pf - z)))
+                    if payoff_bad is None and not torch.equal(deriv.payoff(), z):
+                        payoff_bad = {"payoff()": deriv.payoff().tolist(), "payoff_fn() through the clauses in force": z.tolist()}
+        generic_ok = True
+        if st_p == "ok" and len(by_hand_lib) == nt:
+            exp = sum(by_hand_lib) / nt
+            if not abs(float(price) - exp) <= 1e-9 * max(1.0, abs(exp)):
+                generic_ok = False
+                ctx.fail("Hedger.price differs from minus the cash amount of (Hedger.compute_portfolio - payoff) evaluated afterwards on the same "
+                         "simulated paths (several hedging instruments, prev_hedge / ReLU / Naked modules, clauses)", small,
+                         key=f"price:{c['which']}:scenario:value", detail={"price": float(price), "expected": exp})
+        if c.get("reregistered") and st_p == "ok":
+            if payoff_bad is not None:
+                ctx.fail("after a clause was registered again under an existing name, payoff() is not payoff_fn() passed through the clauses in "
+                         "force (the price is quoted for a payoff that is no longer the contractual one)", small,
+                         key="price:reregistered-clause:payoff", detail=payoff_bad)
+            if len(by_hand) == nt and generic_ok:
+                exp = sum(by_hand) / nt
+                if not abs(float(price) - exp) <= 1e-9 * max(1.0, abs(exp)):
+                    ctx.fail("after a clause was registered again under an existing name, Hedger.price differs from minus the cash amount of "
+                             "(portfolio - payoff under the clauses in force) on the simulated paths", small,
+                             key=f"price:{c['which']}:reregistered-clause:value", detail={"price": float(price), "expected": exp})
         for i, s in others.items():
             if tensor_to_fracs(s.spot) != other_rows[i]:
                 raise InternalError("a hedging instrument that the derivative does not simulate changed its paths")
-        ctx.case(small, c["model"] != "badwidth", tag="hedger_price")
+        ctx.case(small, c["model"] != "badwidth", tag="hedger_price:reregistered_clause" if c.get("reregistered") else "hedger_price")
         ctx.traces += 1
         for kk in ("which", "model", "deriv"):
             ctx.stats[f"hedger_price:{kk}={c[kk]}"] += 1
@@ -437,11 +524,56 @@ def check(ctx):
             if st2 != "ok" or abs(float(price2) - (float(price) + k_shift)) > tolp * max(1.0, abs(exp)):
                 ctx.fail("adding a constant k to the payoff does not raise the price by exactly k", case, key=f"price:{which}:shift",
                          detail={"price": float(price), "price_shifted": float(price2) if st2 == "ok" else price2})
+        # ---- the clause that carries the constant is REGISTERED AGAIN under its name with another constant (a contractual term of an existing
+        # derivative object is updated): the price follows the current clause.  Without the clause the payoff is payoff_fn(), so with the
+        # constant k_new in force the price is the price without the clause plus k_new (isoelastic: the price at -3 plus k_new + 3), it is
+        # minus the cash amount of (portfolio - (payoff_fn() + k_new)) on the simulated paths, and for the entropic risk measure it is the loss.
+        name, k_old = ("pos", -3.0) if which == "iso" else ("shift", 0.0)
+        k_new = -3.0 + g.choice([0.5, -0.5, -1.0]) if which == "iso" else g.choice([x for x in (0.25, 1.0, -0.5, 0.75, -1.25) if x != k_shift])
+        rcase = case | {"re_registered_clause": name, "k_new": k_new}
+        deriv.add_clause(name, lambda d, p, k=k_new: p + k)
+        torch.manual_seed(seed)
+        st3, price3, _ = call_impl(hedger.price, deriv, n_paths=n_paths, n_times=n_times)
+        torch.manual_seed(seed)
+        st3l, loss3, _ = call_impl(hedger.compute_loss, deriv, n_paths=n_paths, n_times=n_times, enable_grad=False)
+        ctx.case(rcase, True, tag="price:reregistered_clause")
+        ctx.traces += 1
+        if st3 != "ok" or st3l != "ok":
+            ctx.fail("Hedger.price / compute_loss raised after a clause was registered again under its name", rcase,
+                     key=f"price:{which}:reregistered-clause:error", detail=[price3 if st3 != "ok" else "ok", loss3 if st3l != "ok" else "ok"])
+            continue
+        tolp = 1e-9 if which in ("erm", "es", "eloss") else 2e-5
+        if abs(float(price3) - (float(price) + k_new - k_old)) > tolp * max(1.0, abs(exp)):
+            ctx.fail("a clause adding a constant to the payoff was registered again under its name with the constant k_new: the price does not "
+                     "follow the current clause (it is not the price for the constant k_old plus k_new - k_old)", rcase,
+                     key=f"price:{which}:reregistered-clause:shift",
+                     detail={"price_k_old": float(price), "k_old": k_old, "k_new": k_new, "price_k_new": float(price3)})
+        torch.manual_seed(seed)
+        vals3, payoff_bad = [], None
+        with torch.no_grad():
+            for _ in range(n_times):
+                deriv.simulate(n_paths=n_paths)
+                z = deriv.payoff_fn() + k_new          # the contractual payoff, written out
+                vals3.append(float(-crit.cash(hedger.compute_portfolio(deriv) - z)))
+                if payoff_bad is None and not torch.equal(deriv.payoff(), z):
+                    payoff_bad = {"payoff()": deriv.payoff().tolist()[:8], "payoff_fn() + k_new": z.tolist()[:8]}
+        exp3 = sum(vals3) / n_times
+        if payoff_bad is not None:
+            ctx.fail("after the clause was registered again under its name, payoff() is not payoff_fn() + k_new (the price is quoted for a payoff "
+                     "that is no longer the contractual one)", rcase, key="price:reregistered-clause:payoff", detail=payoff_bad)
+        if abs(float(price3) - exp3) > tolp * max(1.0, abs(exp3)):
+            ctx.fail("after the clause was registered again under its name, Hedger.price differs from minus the cash amount of "
+                     "(portfolio - (payoff_fn() + k_new)) on the simulated paths", rcase, key=f"price:{which}:reregistered-clause:value",
+                     detail={"price": float(price3), "expected": exp3})
+        if which == "erm" and abs(float(price3) - float(loss3)) > 1e-9 * max(1.0, abs(exp3)):
+            ctx.fail("for the entropic risk measure the price differs from the loss (after a clause was registered again)", rcase,
+                     key="price:erm:reregistered-clause:loss", detail={"price": float(price3), "loss": float(loss3)})
     hedger_price_section(ctx, torch, nn)
     return ctx.finish(
         rule="criteria {EntropicRiskMeasure, EntropicLoss, IsoelasticLoss, ExpectedShortfall, QuadraticCVaR, user subclass and EntropicLoss forced "
              "through the default search} on (N,) and (N,M) samples incl. constants and ties, targets; Hedger.price with frozen seeds, n_times in "
-             "{1,2,3}, cost rates {0, 1e-3, 2^-9, 2^-6}, linear / Black-Scholes hedges, payoff shifts through a clause; "
+             "{1,2,3}, cost rates {0, 1e-3, 2^-9, 2^-6}, linear / Black-Scholes hedges, payoff shifts through a clause, the clause registered again "
+             "under its name with another constant (and sequences of registrations with repeated names in the composed-model scenarios); "
              "Hedger.price and Hedger.compute_loss against the composed model hedgerPriceN / hedgerLossN (op hedger_price): H in 1..3 with primary / listed / "
              "self-listed hedges and dyadic cost rates, linear / ReLU / prev_hedge / Naked modules, cap / floor / affine clauses, n_times 1..3, "
              "expected shortfall exact on the rational values of the simulated float64 buffers, entropic criteria on the IEEE replica; "
